@@ -205,6 +205,11 @@ def init_rows_at(tbl, sites):
     """is one of the two access sites a construction row (composite literal of the struct, or a write
     labelled initBeforePublication) of some location of that file"""
     want = {s for s in sites if s}
+    for c in tbl.get('Ctors') or []:
+        for s_ in want:
+            f, ln = s_.rsplit(':', 1)
+            if f == c['File'] and c['Line'] <= int(ln) <= c['End']:
+                return True
     for l in tbl['Locs']:
         for r in l['Rows']:
             if f"{l['File']}:{r['Line']}" in want and (r['Ctx'] == 'ctor' or r['Prot'] == 'initBeforePublication'):
